@@ -656,3 +656,68 @@ func (r *Runner) modeB(pkgRel string, filter string, native bool, bounds Bounds,
 		}
 	}
 }
+
+// modeC: static fixture packages (harness/conc/<name>) using the concurrency helpers: copied into the scratch
+// repository, generated by the freshly built goderive, and executed with the schedule as solver variables.
+func (r *Runner) modeC(name string, filter string, bounds Bounds) {
+	src := filepath.Join(verifDir(), "harness", "conc", name)
+	rel := "vxfix/conc/" + name
+	dst := filepath.Join(r.S.Repo, rel)
+	os.MkdirAll(dst, 0o755)
+	ents, err := os.ReadDir(src)
+	if err != nil {
+		r.inconsistent("fixture directory missing: " + src)
+		return
+	}
+	var names []string
+	fnRe := regexp.MustCompile(`(?m)^func (VX_[A-Za-z0-9_]+)\(\)`)
+	for _, e := range ents {
+		data, _ := os.ReadFile(filepath.Join(src, e.Name()))
+		os.WriteFile(filepath.Join(dst, e.Name()), data, 0o644)
+		for _, m := range fnRe.FindAllStringSubmatch(string(data), -1) {
+			names = append(names, m[1])
+		}
+	}
+	sort.Strings(names)
+	var rt strings.Builder
+	fmt.Fprintf(&rt, "package %s\n\nimport (\n\t\"testing\"\n\n\t\"%s/vxlib/vx\"\n)\n\nfunc TestVXReplay(t *testing.T) {\n\tvx.Replay(t, map[string]func(){\n", name, modPath)
+	for _, n := range names {
+		fmt.Fprintf(&rt, "\t\t%q: %s,\n", n, n)
+	}
+	rt.WriteString("\t})\n}\n")
+	os.WriteFile(filepath.Join(dst, "zz_replay_test.go"), []byte(rt.String()), 0o644)
+	fp := &FixPkg{Rel: rel, Insts: []Inst{{ID: name, T: &Ty{K: "basic", Name: "fixture:" + name}}}}
+	r.S.runGoderive(fp)
+	if !fp.GenOK {
+		r.feFailure(fp, "goderive", fp.GenOut)
+		return
+	}
+	good, bad := r.loadAll([]*FixPkg{fp})
+	for _, p := range bad {
+		r.feFailure(p, "typecheck", p.GenOut)
+	}
+	if len(good) == 0 {
+		return
+	}
+	r.stage("concurrency fixture " + name + " generated")
+	ld, err := loadProgram(r.S.Repo, []string{"./" + rel}, goEnv())
+	if err != nil {
+		r.inconsistent("loading " + rel + " failed: " + err.Error())
+		return
+	}
+	if r.Spec.Timeout != nil {
+		solverTimeout = r.Spec.Timeout(r.Tier)
+	}
+	opts := RunOpts{Bounds: bounds, Workers: r.Workers, CrossCheck: r.Tier == "thorough", Filter: regexp.MustCompile(filter), Conc: true, Filter2: r.Filter}
+	res := runHarnesses(ld, opts)
+	r.Programs += len(res)
+	r.Results = append(r.Results, res...)
+	r.Extra["bounds"] = bounds
+	r.classify(res)
+	r.stage("mode C harnesses decided")
+	if verbose {
+		for _, hr := range res {
+			fmt.Fprintf(os.Stderr, "  %-34s %-12s solve=%dms exec=%dms obls=%d terms=%d %s\n", hr.Name, hr.Status, hr.SolveMs, hr.ExecMs, len(hr.Obls), hr.Terms, trunc(hr.Detail, 600))
+		}
+	}
+}
